@@ -471,4 +471,9 @@ def run(chk):
     common.builder_rules(chk, P, "C12", lambda b: b.crate == "emit_otlp" and ("Builder::" in b.key or "HttpContent::" in b.key), 10)
     # request grouping: the OTLP channel's clear() resets every field push() updates or len() reads (shared with C09)
     batcher.channel_impls(chk, P, "C12.channel")
+    if not getattr(chk, "_overlay", None):
+        common.linear_types_rule(chk, P, "C12.R4:halves-are-linear", "the channel halves cannot be copied (dropping one copy would close the channel under the other)",
+                                 {"emit_batcher::Sender": "Drop for Sender closes the channel: the first copy dropped stops the receiver while the others still send, "
+                                                          "their items are discarded and a flush reports success at once",
+                                  "emit_batcher::Receiver": "two receivers would take batches concurrently and both clear is_in_batch"})
     return chk
